@@ -8,6 +8,10 @@ Model: `Fv.Cache.Conc`. `s.removed` is the ghost log of every removal of a bindi
 by `remove`/`invalidate`, admission-driven eviction, the capacity pass and TTL cleanup, each with a
 fresh removal id; `s.notifs` is the log of notifications accepted by the notification channel
 (`try_send` succeeded; a full channel drops the notification — `sent = false`).
+
+Programs may MIX calls on the sync handle (`Cache`) and on the async handle (`AsyncCache`): the environment
+label `call op async` chooses the handle per call, and every theorem below quantifies over such mixed
+programs (see `Fv.Props.CacheConcAsync` for what differs between the two handles).
 -/
 namespace Fv.Props.C16Conc
 open Fv.Cache.Conc
